@@ -9,7 +9,7 @@ VARIABLES i, res
 tvars == <<i, res>>
 
 ToSet(s) == {s[k] : k \in 1..Len(s)}
-Norm(o) == [people |-> [k \in Idx(o.people) |-> [p |-> o.people[k].p, src |-> ToSet(o.people[k].src)]],
+Norm(o) == [people |-> [k \in Idx(o.people) |-> [p |-> o.people[k].p, src |-> ToSet(o.people[k].src), fams |-> o.people[k].fams, famc |-> o.people[k].famc]],
             fams |-> [k \in Idx(o.fams) |-> [p |-> o.fams[k].p, src |-> ToSet(o.fams[k].src), husb |-> o.fams[k].husb,
                                               wife |-> o.fams[k].wife, chil |-> o.fams[k].chil]]]
 D(e) == [left |-> e.left, right |-> e.right]
@@ -21,12 +21,13 @@ ClausesOf(e, o, tag) ==
       <<"nobody-invented", o.decodes => \A k \in Idx(o.people) : o.people[k].src # <<>>>>,
       <<"merged-individual-holds-facts-of-both", o.decodes => \A k \in Idx(o.people) : o.people[k].facts>>,
       <<"every-family-carried-over", o.decodes => EveryFamilyAccounted(D(e), Norm(o))>>,
-      <<"references-resolve-to-the-same-person", o.decodes => ReferentialClosurePreserved(D(e), Norm(o))>>  >>
+      <<"references-resolve-to-the-same-person", o.decodes => ReferentialClosurePreserved(D(e), Norm(o))>>,
+      <<"family-links-of-individuals-resolve", (o.decodes /\ Closed(e.left) /\ Closed(e.right)) => FamilyLinksPreserved(D(e), Norm(o))>>  >>
 Clauses(e) == ClausesOf(e, e.lib, "lib") \o ClausesOf(e, e.query, "query")
 Failed(e) == SelectSeq(Clauses(e), LAMBDA c : ~c[2])
 
 \* the code's result as sets (order of records and of children is free)
-AsSets(m) == [people |-> ToSet(m.people),
+AsSets(m) == [people |-> {[p |-> x.p, src |-> x.src] : x \in ToSet(m.people)},
               fams |-> {[p |-> f.p, src |-> f.src, husb |-> ToSet(f.husb), wife |-> ToSet(f.wife), chil |-> ToSet(f.chil)] : f \in ToSet(m.fams)}]
 \* with clear-cut similarities the code matches exactly the people with the same who: its output is the as-is merge
 AsIsAgrees(e, o) == o.decodes /\ AsSets(Norm(o)) = AsSets(Merge(D(e), TRUE))
